@@ -8,15 +8,39 @@
 #include "json_object.h"
 const char *DOMAIN = "al";
 
-#define MAXREL 65536
-static long rel_log[MAXREL];
-static size_t rel_n;
+static long *rel_log;
+static size_t rel_n, rel_cap;
 static long live_elts;     /* elements created and not yet destroyed */
 static int quiet;          /* the driver itself drops an element the array refused */
 
 static void log_rel(long id)
 {
-	if (!quiet && rel_n < MAXREL) rel_log[rel_n++] = id;
+	if (quiet) return;
+	if (rel_n == rel_cap) {
+		rel_cap = rel_cap ? rel_cap * 2 : 1024;
+		rel_log = (long *)(realloc)(rel_log, rel_cap * sizeof(long));
+	}
+	rel_log[rel_n++] = id;
+}
+/* sequences (contents, released ids) are printed run-length encoded so that arrays of
+ * tens of thousands of slots stay one short token: "e" one element, "e*k" k copies (k >= 3),
+ * "e+k" the k consecutive ids e, e+1, ... (k >= 3); n = NULL; "-" = empty. */
+#define NUL LONG_MIN
+static void put_seq(const long *v, size_t n)
+{
+	size_t i = 0;
+	if (n == 0) { putchar('-'); return; }
+	while (i < n) {
+		size_t r = 1, s = 1;
+		while (i + r < n && v[i + r] == v[i]) r++;
+		if (v[i] != NUL)
+			while (i + s < n && v[i + s] != NUL && v[i + s] == v[i] + (long)s) s++;
+		if (i) putchar(',');
+		if (v[i] == NUL) putchar('n'); else printf("%ld", v[i]);
+		if (r >= 3) { printf("*%zu", r); i += r; }
+		else if (s >= 3) { printf("+%zu", s); i += s; }
+		else i++;
+	}
 }
 /* ---- mode d ---- */
 static void box_free(void *p)
@@ -74,12 +98,14 @@ static long id_of(void *p)
 {
 	return jmode ? (long)json_object_get_int64((struct json_object *)p) : *(long *)p;
 }
+static void *mkid(long id)
+{
+	return jmode ? (void *)mkjint(id) : mkbox(id);
+}
 static void *mkelt(const char *s)
 {
-	long id;
 	if (s[0] == 'n') return NULL;
-	id = strtol(s, NULL, 10);
-	return jmode ? (void *)mkjint(id) : mkbox(id);
+	return mkid(strtol(s, NULL, 10));
 }
 static void drop(void *p)      /* the array refused the element: the caller still owns it */
 {
@@ -90,24 +116,23 @@ static void drop(void *p)      /* the array refused the element: the caller stil
 }
 static void put_ids(void)
 {
-	size_t i;
-	if (rel_n == 0) { putchar('-'); return; }
-	for (i = 0; i < rel_n; i++) printf(i ? ",%ld" : "%ld", rel_log[i]);
+	put_seq(rel_log, rel_n);
 }
 static void obs(const char *ret)
 {
 	size_t len = jmode ? json_object_array_length(jarr) : array_list_length(arr);
 	size_t size = jmode ? json_object_get_array(jarr)->size : arr->size;
 	size_t i;
+	long *v = (long *)(malloc)((len ? len : 1) * sizeof(long));
 	printf("%s %zu %zu ", ret, len, size);
 	put_ids();
 	putchar(' ');
-	if (len == 0) putchar('-');
 	for (i = 0; i < len; i++) {
 		void *p = get(i);
-		if (i) putchar(',');
-		if (p) printf("%ld", id_of(p)); else putchar('n');
+		v[i] = p ? id_of(p) : NUL;
 	}
+	put_seq(v, len);
+	(free)(v);
 	printf(" %d", (get(len) == NULL && get(len + 1) == NULL && get(SIZE_MAX) == NULL) ? 1 : 0);
 }
 
@@ -144,6 +169,17 @@ void run_case(char *rest)
 			void *e = mkelt(tok + 1);
 			r = jmode ? json_object_array_add(jarr, (struct json_object *)e) : array_list_add(arr, e);
 			if (r != 0) drop(e);
+			break; }
+		case 'M': {      /* M<k>,<id0>: k appends of the ids id0, id0+1, ...; stops at the first refusal */
+			size_t k = (size_t)strtoull(tok + 1, NULL, 10), j;
+			long id0;
+			if (!comma) { printf("BADOP"); goto out; }
+			id0 = strtol(comma + 1, NULL, 10);
+			for (j = 0; j < k; j++) {
+				void *e = mkid(id0 + (long)j);
+				r = jmode ? json_object_array_add(jarr, (struct json_object *)e) : array_list_add(arr, e);
+				if (r != 0) { drop(e); break; }
+			}
 			break; }
 		case 'P': case 'I': {
 			size_t i = (size_t)strtoull(tok + 1, NULL, 10);
